@@ -11,6 +11,8 @@ CFG = {'assumptions': ["every position, size and n stays below 2^31 - 64 (Go's i
         'bitmap.Get': 'bitmap.Get, bitmap.Get1',
         'bitmap.SafeGet': 'bitmap.SafeGet, bitmap.SafeGet1',
         'bitmap.OfMany': 'bitmap.OfMany',
+        'bitmap.Mask': 'bitmap.Mask[i], bitmap.RMask[i]',
+        'bitmap.Bit': 'bitmap.MaskUpto[i], bitmap.RMaskUpto[i], bitmap.Bit[i], bitmap.RBit[i]',
         'bitmap.Builder': 'bitmap.NewBuilder + Builder.Extend / Builder.Set history, Words and Offset after every call'},
  'rule': 'cases = Of: every subset of {0,1,62,63,64,65,127,128} x 18 choices of n (absent, negative down to -2^31, smaller, last+1, '
          'larger, word-aligned) + random ascending lists in 5 styles (dense, small gaps, word boundaries, gaps > 3 '
